@@ -438,8 +438,47 @@ class Exec(ExprMixin, CallMixin):
     def st_Expr(self, s, st):
         if isinstance(s.value, ast.Constant):
             return self.simple(st)
+        if isinstance(s.value, ast.Yield):
+            return self.st_yield(s.value, st)
         self.ev(s.value, st)
         return self.simple(st)
+
+    def st_yield(self, y, st):
+        """`yield e` in a generator under contract: every condition of contract.yields must hold for the yielded value (`value`)
+        in the current state; `head(x)` inside a condition refers to the state at the head of the current iteration of the
+        innermost loop.  The ghost counter named by contract.ghost['$yield_counter'] (if any) is incremented.  What the consumer
+        does between two yields is covered by the loop invariant (the next iteration starts from a havoced head state)."""
+        v = self.ev(y.value, st) if y.value is not None else none_sv()
+        yt = getattr(self.c, 'yield_type', None)
+        if yt:
+            t = self.eng.ptype(yt)
+            if isinstance(t, T.Tuple) and isinstance(y.value, ast.Tuple):
+                parts = [coerce(self.ev(e, st), tt) for e, tt in zip(y.value.elts, t.ts)]
+                v = SV(t, t.mk([p_.z for p_ in parts]), aux=parts)
+            else:
+                v = coerce(v, t)
+        k = self.eng.site('yield')
+        ys = self.c.yields
+        if isinstance(ys, dict):
+            # per yield statement, numbered in source order
+            sites = sorted((n_ for n_ in ast.walk(self.fn) if isinstance(n_, ast.Yield)), key=lambda n_: (n_.lineno, n_.col_offset))
+            ys = ys.get([id(x) for x in sites].index(id(y)), [])
+            ys = [ys] if isinstance(ys, str) else ys
+        for i, cond in enumerate(ys or []):
+            o = self.eng.obl('yield', 'yield@%d#%d' % (getattr(y, 'lineno', 0), i), cond)
+            g = self.spec_eval(cond, st, {'value': v})
+            o.add(st.hyps(), g, 'yield')
+        cnt = getattr(self.c, 'yield_counter', None)
+        if cnt:
+            key = ('g', cnt, self.eng.ptype(self.eng.prop.ghosts[cnt]))
+            st.seth(key, st.h(key) + 1)
+        return self.simple(st)
+
+    def st_FunctionDef(self, s, st):
+        # a nested helper function whose calls are resolved by the contract (contract.calls) is skipped
+        if s.name in self.c.calls:
+            return self.simple(st)
+        raise Unsupported('nested function %s without a contract (line %s)' % (s.name, s.lineno))
 
     def st_Assert(self, s, st):
         c = self.truthy(self.ev(s.test, st), st)
@@ -1096,6 +1135,7 @@ class Exec(ExprMixin, CallMixin):
         self.assume_inv(lc, head, env0(head))
         self.use_lemmas(lc.at_head, head, env0(head), 'loop%d-head' % ordn)
         head_snapshot = head.copy()
+        self.head_stack = getattr(self, 'head_stack', []) + [(ordn, head_snapshot)]
         meas0 = None
         if lc.decreases is not None:
             meas0 = self.spec_value(lc.decreases, head, env0(head)).z
@@ -1129,6 +1169,7 @@ class Exec(ExprMixin, CallMixin):
                 o = self.eng.obl('decreases', 'loop%d' % ordn, lc.decreases)
                 o.add(s.hyps(), z3.And(m1 < meas0, meas0 >= 0) if False else z3.And(meas0 > m1, meas0 >= 0), how)
         # 5. after the loop
+        self.head_stack = self.head_stack[:-1]
         normals = list(ob.brks)
         if os.environ.get('PYVC_DEBUG'):
             import sys as _s
